@@ -244,6 +244,7 @@ type engineCampaign struct {
 	settle   time.Duration
 	corpus   []*PlanSpec
 	crashes  int
+	after    func(r *Result) // extra sub-campaign, run last
 }
 
 func (c *engineCampaign) run(r *Result) {
@@ -298,6 +299,9 @@ func (c *engineCampaign) run(r *Result) {
 		// the property must also hold across a restart: a small crash-replay campaign (every write prefix)
 		crashCampaign(c.prop, r, c.crashes, c.crashes*20, false)
 		r.Notes = append(r.Notes, "includes a crash-replay sub-campaign (harness/crash_test.go) for the property's clauses across a restart")
+	}
+	if c.after != nil && !expired() {
+		c.after(r)
 	}
 	filterFindings(r, c.prop)
 	r.Validated = r.Evaluations
@@ -422,7 +426,7 @@ func init() {
 			}
 			return false
 		}}).run
-	campaigns["C08"] = (&engineCampaign{prop: "C08",
+	campaigns["C08"] = (&engineCampaign{prop: "C08", after: c08FaultCampaign,
 		rule:  "random plans with retries 0-3 and transient failures; the merged log of store writes (before/after markers with images) and plugin calls is checked: Running durable before invoke, attempt k durable before attempt k+1 and before the next action, terminal plan state and the whole final flush durable before release, blocks/sequences/sequence actions never leave a terminal status; non-trivial = >=1 retry or a sequence with >=2 actions; distinct by spec",
 		quick: 400, thorough: 10000,
 		gen: func(i int, g *engineGen) {
